@@ -1,5 +1,6 @@
 import SigmaVerif.Gen.SStr
 import SigmaVerif.Spec.SStr
+import SigmaVerif.Props.C05
 /-! Obligations tying the constants of `sigma/types.py` as they are *now* to the C05 theorems. -/
 namespace SigmaVerif.Oblig.C05
 open SigmaVerif.SStr SigmaVerif.SStrSpec
@@ -18,5 +19,17 @@ theorem gen_regex_conv_wf : convWf SigmaVerif.Gen.SStr.regexConv = true := by de
 /-- … and every regular-expression metacharacter is in its escaped set -/
 theorem gen_regex_meta_escaped :
     reMeta.all SigmaVerif.Gen.SStr.regexConv.escapedSet.contains = true := by decide
+
+/-- C05 instantiated at the `to_regex` configuration the code has *now*: the regular-expression
+form matches exactly the strings the wildcard pattern matches -/
+theorem gen_toRegex_glob (s : SStr) (r : Str) (h : convert SigmaVerif.Gen.SStr.regexConv s = .ok r) (x : Str) :
+    reMatch r x = some (glob s x) := by
+  rw [gen_regex_conv] at h
+  exact SigmaVerif.Props.C05.toRegex_glob [] (by decide) s r h x
+
+/-- … and its text is read back to exactly the source characters and wildcards -/
+theorem gen_regex_decodes (s : SStr) (t : Str) (h : convert SigmaVerif.Gen.SStr.regexConv s = .ok t) :
+    decode SigmaVerif.Gen.SStr.regexConv t = some (filtered SigmaVerif.Gen.SStr.regexConv s) :=
+  SigmaVerif.Props.C05.convert_decodes _ gen_regex_conv_wf s t h
 
 end SigmaVerif.Oblig.C05
